@@ -3,6 +3,7 @@
      reg(id, late)       a teardown callback is registered on the root context by a component (late: by a teardown callback,
                          while the root context is being torn down)
      td(id)              that callback runs
+     stuck               the application is still running long after the ending of the program struck
      outcome(k, code, exc)   run_application returned (k = "return"), raised SystemExit(code) (k = "exit") or raised exc (k = "raise") *)
 EXTENDS Naturals, Sequences, FiniteSets
 MonInit == [regs |-> <<>>, lates |-> {}, tds |-> <<>>, finished |-> FALSE, ok |-> TRUE, why |-> "", hits |-> {}]
@@ -27,5 +28,6 @@ MonNext(p, m, e) ==
          ELSE IF e.k = "exit" /\ e.code # p.exp.code THEN Fail(m1, "wrong-exit-status")
          ELSE IF e.k = "raise" /\ e.exc # p.exp.exc THEN Fail(m1, "original-exception-not-propagated")
          ELSE Hit(IF m.lates # {} THEN Hit(m1, "callback-registered-during-teardown-ran") ELSE m1, e.k \o "-" \o p.end.kind)
+    [] e.ev = "stuck" -> Fail(m, "run_application-still-running-long-after-its-ending-struck")
     [] OTHER -> m
 =============================================================================
